@@ -116,23 +116,30 @@ def reify (now : Nat) : Nat → St → List Nat → St × List Nat
       let top' := if top.resched then resched top now else { top with active := false }
       reify now fuel (s.upd top') (pend ++ [top.sid])
 
-def tick (s : St) (now : Nat) : St × List Spawn :=
-  let s := { s with now := now }
-  let (s, pend) := reify now (s.tasks.length + 1) s []
+/-- the pending periodic callbacks of one iteration, in order; a watcher stopped meanwhile (`active = false`
+with no `cbUnsched`… i.e. no longer in the task list, or stopped by `unsched`) has its pending callback cleared -/
+def runPending (s : St) (pend : List Nat) : St × List Spawn :=
   pend.foldl (fun (acc : St × List Spawn) sid =>
     let (s, sps) := acc
     match s.tasks.find? (·.sid == sid) with
     | none => (s, sps)
     | some t =>
-      if t.cbUnsched then
+      if !t.inTable then (s, sps)
+      else if t.cbUnsched then
         -- `unsched`: with children still running only the watcher is stopped
         (if t.nsim ≠ 0 then s.upd { t with active := false } else unsched s { t with active := false }, sps)
       else
         let (s', sp) := taskCb s t
         (s', sps ++ sp)) (s, [])
 
-/-- `chld_cb` for the k-th child watcher ever started -/
-def childExit (s : St) (k : Nat) : St × Bool :=
+def tick (s : St) (now : Nat) : St × List Spawn :=
+  let s := { s with now := now }
+  let (s, pend) := reify now (s.tasks.length + 1) s []
+  runPending s pend
+
+/-- `chld_cb` for the k-th child watcher ever started; `pend` = watchers whose callback is pending in this
+loop iteration (`ev_is_pending`) -/
+def childExitPending (s : St) (k : Nat) (pend : List Nat) : St × Bool :=
   match s.children[k]? with
   | none => (s, false)
   | some c =>
@@ -143,8 +150,10 @@ def childExit (s : St) (k : Nat) : St × Bool :=
     | some t =>
       let t := { t with nsim := t.nsim - 1 }
       if !t.inTable then (if t.nsim == 0 then s.del t.sid else s.upd t, true)
-      else if !t.resched && t.nsim == 0 then (unsched (s.upd t) t, true)
+      else if !t.resched && t.nsim == 0 && !(pend.contains t.sid) then (unsched (s.upd t) t, true)
       else (s.upd t, true)
+
+def childExit (s : St) (k : Nat) : St × Bool := childExitPending s k []
 
 /-! ### client requests -/
 
@@ -252,5 +261,23 @@ def reload (files : List (Nat × List DTask)) (me now : Nat) : St :=
   let s0 : St := { me := me, now := now, files := files }
   files.foldl (fun s f =>
     f.2.foldl (fun s t => (inject s t.uid (some t.owner) t.maxSimul t.dur t.occ true notAUid).1) s) s0
+
+end Echse.Daemon
+
+namespace Echse.Daemon
+
+/-- `cmd_http` for `GET [/u/<uid>]/sched[?tuid=…]`: the gate `(c.u & cmd->uid) != c.u`, then the uid whose tasks are
+listed is `c.u` unless that is 0 (root), in which case it is the uid named in the URL.  Returns the HTTP status and
+the UIDs listed. -/
+def httpSched (s : St) (peer : Nat) (urlUid : Option Nat) (tuids : List String) : Nat × List String :=
+  let cu := (complUid s peer)
+  let cu := if cu = notAUid then peer else cu
+  let q := urlUid.getD notAUid
+  let u := cu &&& q
+  if u ≠ cu then (403, [])
+  else
+    let u := if u ≠ 0 then u else q
+    let mine := (s.tasks.filter fun t => t.inTable && t.owner == u).map (·.uid)
+    (200, if tuids.isEmpty then mine else tuids.filter (mine.contains ·))
 
 end Echse.Daemon
